@@ -509,6 +509,9 @@ class Program:
         with open(path) as fh:
             d = json.load(fh)
         self.path = path
+        if not os.environ.get("VERIF_NO_DESUGAR"):
+            import desugar
+            self.desugared_sites = desugar.desugar(d)
         self.crate = d["crate"]
         self.features = d["features"]
         self.types = d["types"]
